@@ -342,6 +342,63 @@ reg(
 )
 
 
+reg(
+    "C23",
+    "other",
+    "Only the delegation clause: in the generic (CLI) evaluator's dispatch functions eval_single (over Expr) and eval_builtin (over Builtin) the catch-all edge of the "
+    "discriminant switch reaches the full evaluator (jq::eval::eval* directly or through the eval_on_owned bridge) on every path to a return, so a construct the generic "
+    "evaluator does not implement natively is delegated rather than answered with a default or an 'unsupported' error (FALLBACK, must-pass-through on the MIR CFG). "
+    "Agreement of the values and errors computed by the natively handled arms is not decided (the seeded C23 change, an off-by-one in a native fast path, is not caught).",
+    [only_cfgs(_lazy("cgrules", "rule_fallback", functions=[("jq::eval_generic::eval_single", r"jq::expr::Expr\b"), ("jq::eval_generic::eval_builtin", r"jq::expr::Builtin\b")]), ["cli"])],
+    quick=["cli"],
+    technique="must-pass-through check on the MIR CFG of the dispatch functions (catch-all edge -> full evaluator)",
+)
+
+
+reg(
+    "C18",
+    "translation_validation",
+    "The strict YAML validator (yaml::validate::validate) is evaluated from MIR on a generated family of well-formed documents covering every presentation kind "
+    "of the property's space (block/flow collections, plain/single/double quoted/literal/folded scalars, comments, blank lines, LF/CRLF/CR, anchors+aliases, markers, "
+    "multi-document streams; 154 documents) — each must be accepted — and on truncations and single-byte substitutions of them, where it must terminate within the step "
+    "budget, never panic, and report errors whose line/column are those of the offset; its flow recursion is guarded by an error-returning depth test (REC). "
+    "Finite generated family, not the whole presentation space; the SIMD kernels it shares with the loader are evaluated at both dispatch levels.",
+    [
+        only_cfgs(_lazy("yamlval", "rule_yaml_validator"), ["cli"]),
+        only_cfgs(_lazy("cgrules", "rule_rec", entries=[r"^yaml::validate::validate$"], name="REC(yaml::validate)", scope=r"^yaml::validate::"), ["cli"]),
+    ],
+    quick=["cli"],
+    technique="finite-domain evaluation of validator MIR on a generated well-formed family and its mutations; call-graph SCC guard dominance",
+)
+
+
+reg(
+    "C11",
+    "other",
+    "Only the string clause: every function carrying the JSON escape-writer idiom that is reachable from the jq print routes (jq_runner, output, jq::stream, OwnedValue::to_json*) "
+    "without passing through YAML-side code is one of the four writers verified by CHARMAP, and those writers decode back under RFC 8259 section 7 on the boundary-complete "
+    "character family (REACH + CHARMAP). Value equality of the printed document, duplicate-key collapse, number spelling and sortedness are not decided.",
+    [
+        only_cfgs(_lazy("charmap", "rule_writer_registry"), ["cli"]),
+        only_cfgs(_lazy("charmap", "rule_json_writers"), ["cli"]),
+    ],
+    quick=["cli"],
+    technique="who-may-escape reachability rule over the resolved call graph + finite-domain evaluation of the writers",
+)
+reg(
+    "C15",
+    "translation_validation",
+    "Only the plain-vs-quoted clause: every decider from whose result a yq YAML emitter chooses between writing a string raw and quoting it (yq_runner::yaml_quote_string, "
+    "yq_runner::yaml_quote_key, jq::stream::needs_yaml_quoting, yaml::light::needs_yaml_quoting) is evaluated from MIR on a string family covering every spelling the loader's "
+    "plain-scalar resolver recognises (with prefix/suffix/case variants), every ASCII character as first/last/only character, and the lexical hazards; whenever a value is let through "
+    "plain, the loader's own yaml::scalar::resolve_plain (evaluated from MIR) must resolve it to a string, and the text must be lexically a plain scalar for this loader. "
+    "Alias/anchor soundness of the streaming emitter (repo issue #1350), block structure, indentation indicators and comments are not decided (the seeded C15 change is not caught).",
+    [only_cfgs(_lazy("yamlquote", "rule_yaml_quoting"), ["cli"])],
+    quick=["cli"],
+    technique="finite-domain evaluation of writer deciders and the reader's resolver from MIR (writer/reader table agreement)",
+)
+
+
 def run(pid, tier, only=None, replay=None):
     if pid not in REGISTRY:
         print("property %s is not claimed (see MANIFEST.not_applicable)" % pid)
